@@ -5,6 +5,7 @@ package interp
 
 import (
 	"fmt"
+	"go/token"
 	"go/types"
 	"strings"
 	"time"
@@ -59,6 +60,30 @@ func registerTimeStubs() {
 		}
 		return i.timeNow()
 	}
+	// Wall-clock views of a model instant: the native replay anchors the symbolic
+	// reading at 2023-11-14T22:13:20Z (vClockBase in the harness library), so
+	// UnixNano = base + reading and the coarser views divide it.
+	const clockBaseNs = int64(1700000000) * 1000000000
+	unixView := func(div int64) func(i *interpreter, fr *frame, fn *ssa.Function, args []value) value {
+		return func(i *interpreter, fr *frame, fn *ssa.Function, args []value) value {
+			t := args[0].(structure)
+			if w, ok := t[0].(uint64); !ok || w != hasMonotonic {
+				return callSSAbody(i, fr.caller, fn, args, nil)
+			}
+			if _, isSym := t[1].(sym); !isSym {
+				return callSSAbody(i, fr.caller, fn, args, nil)
+			}
+			ns := binop(tokenADD, nil, t[1], int64(clockBaseNs))
+			if div == 1 {
+				return ns
+			}
+			return binop(token.QUO, nil, ns, div)
+		}
+	}
+	specials["(time.Time).UnixNano"] = unixView(1)
+	specials["(time.Time).UnixMicro"] = unixView(1000)
+	specials["(time.Time).UnixMilli"] = unixView(1000000)
+	specials["(time.Time).Unix"] = unixView(1000000000)
 	specials["time.Since"] = func(i *interpreter, fr *frame, fn *ssa.Function, args []value) value {
 		t := args[0].(structure)
 		if !repoCaller(fr) {
